@@ -41,6 +41,7 @@ struct Spec {
   int ptmode = 0;                                       // 0 deduplicated ids, 1 one point per corner, 2 some duplicates
   bool shuffle = false;
   bool int_pos = false;
+  int pos_index = 0;                                    // how many non-position attributes are added BEFORE the position attribute
   std::string gen;                                      // generator name (statistics)
 };
 
@@ -95,7 +96,7 @@ static std::unique_ptr<Mesh> make_mesh(const Spec &s, const Built &b) {
   std::unique_ptr<Mesh> mp(new Mesh());
   Mesh &m = *mp;
   m.set_num_points(np);
-  {
+  auto add_position = [&]() {
     GeometryAttribute ga;
     if (s.int_pos) ga.Init(GeometryAttribute::POSITION, nullptr, 3, DT_INT32, false, sizeof(int32_t) * 3, 0);
     else ga.Init(GeometryAttribute::POSITION, nullptr, 3, DT_FLOAT32, false, sizeof(float) * 3, 0);
@@ -106,8 +107,10 @@ static std::unique_ptr<Mesh> make_mesh(const Spec &s, const Built &b) {
       else { float p[3] = {(float)(v % 17), (float)(v / 17), (float)((v * 7) % 5) * 0.25f}; pa->SetAttributeValue(AttributeValueIndex(v), p); }
     }
     for (int p = 0; p < np; p++) pa->SetPointMapEntry(PointIndex(p), AttributeValueIndex(b.ptmap[p][0]));
-  }
+  };
+  if (s.pos_index <= 0 || s.natt == 0) add_position();
   for (int a = 0; a < s.natt; a++) {
+    if (a > 0 && a == std::min(s.pos_index, s.natt - 1) && s.pos_index > 0 && s.pos_index < s.natt) add_position();
     GeometryAttribute ga;
     int n = std::max(1, s.nval[a]);
     if (s.kind[a] == 0) ga.Init(GeometryAttribute::GENERIC, nullptr, 1, DT_INT32, false, sizeof(int32_t), 0);
@@ -123,6 +126,7 @@ static std::unique_ptr<Mesh> make_mesh(const Spec &s, const Built &b) {
     for (int p = 0; p < np; p++) pa->SetPointMapEntry(PointIndex(p), AttributeValueIndex(b.ptmap[p][1 + a]));
     if (s.vertex_elem[a]) m.SetAttributeElementType(id, MESH_VERTEX_ATTRIBUTE);
   }
+  if (s.natt > 0 && s.pos_index >= s.natt) add_position();   // position added last
   for (int f = 0; f < nf; f++) {
     Mesh::Face face;
     for (int c = 0; c < 3; c++) face[c] = PointIndex(b.fpt[f][c]);
@@ -184,6 +188,7 @@ static void common_tail(Spec &s, Rng &r) {
   static const int kPt[6] = {0, 0, 0, 1, 2, 2}; s.ptmode = kPt[r.below(6)];
   s.shuffle = r.chance(30);
   s.int_pos = r.chance(20);
+  s.pos_index = r.chance(35) ? (int)r.range(1, 3) : 0;   // POSITION is not always attribute 0
 }
 
 static Spec gen_grid(Rng &r, bool wrap, int extra_faces) {
